@@ -17,11 +17,12 @@ VARIABLES l,          \* next event
           abbrOf,     \* <<type, name>> |-> abbreviation (normalised for model types)
           unitAff,    \* <<type, name>> |-> [mag, to]  meaning of the unit's own symbol
           consistent, \* <<type, system>> |-> unit
-          bad         \* sequence of verdict records
-vars == <<l, enumOf, seenAbbr, abbrOf, unitAff, consistent, bad>>
+          bad,        \* sequence of verdict records
+          implAff     \* <<type, name>> |-> [to, from]  slope of the IMPLEMENTED conversion (parsed from its body), as bags
+vars == <<l, enumOf, seenAbbr, abbrOf, unitAff, consistent, bad, implAff>>
 
 Init == /\ l = 1 /\ enumOf = <<>> /\ seenAbbr = <<>> /\ abbrOf = <<>> /\ unitAff = <<>>
-        /\ consistent = <<>> /\ bad = <<>>
+        /\ consistent = <<>> /\ bad = <<>> /\ implAff = <<>>
 
 IsEvent(e) == l <= Len(Facts) /\ Facts[l].e = e /\ l' = l + 1
 Toks(r)    == [i \in 1..Len(r.toks) |-> <<r.toks[i][1], r.toks[i][2]>>]
@@ -46,7 +47,7 @@ TEnum == LET r == Facts[l]  n == Len(r.names) IN
                        <<\A i \in 1..3 : r.n_to[i] = n /\ r.n_from[i] = n,
                          V("map_size", r.type, "MapOfConversions", "entries differ from enumerators")>> >>
                ELSE <<>>))
-  /\ UNCHANGED <<abbrOf, unitAff, consistent>>
+  /\ UNCHANGED <<abbrOf, unitAff, consistent, implAff>>
 
 TEnumerator == LET r == Facts[l] IN
   /\ IsEvent("Enumerator")
@@ -78,12 +79,13 @@ TEnumerator == LET r == Facts[l] IN
         /\ seenAbbr' = [seenAbbr EXCEPT ![T] = @ \cup (IF r.has_abbr THEN {r.abbr} ELSE {})]
         /\ abbrOf' = abbrOf @@ (<<T, r.name>> :> (IF unit \/ T = "UnitSystem" THEN r.abbr ELSE r.norm))
         /\ unitAff' = IF ok THEN unitAff @@ (<<T, r.name>> :> [mag |-> MagOf(sym), to |-> ToStd(T, sym), dim |-> DimOf(sym)]) ELSE unitAff
+        /\ implAff' = IF unit /\ r.parsed THEN implAff @@ (<<T, r.name>> :> [to |-> AsBag(r.to.slope), from |-> AsBag(r.from.slope)]) ELSE implAff
   /\ UNCHANGED <<enumOf, consistent>>
 
 TExtraKey == LET r == Facts[l] IN
   /\ IsEvent("ExtraKey")
   /\ Judge(<< <<FALSE, V("extra_key", r.type, r.table, ToString(r.val))>> >>)
-  /\ UNCHANGED <<enumOf, seenAbbr, abbrOf, unitAff, consistent>>
+  /\ UNCHANGED <<enumOf, seenAbbr, abbrOf, unitAff, consistent, implAff>>
 
 TSpelling == LET r == Facts[l]  T == r.type IN
   /\ IsEvent("Spelling")
@@ -105,7 +107,7 @@ TSpelling == LET r == Facts[l]  T == r.type IN
                   THEN << <<<<T, r.maps_to>> \in DOMAIN abbrOf /\ r.norm = abbrOf[<<T, r.maps_to>>],
                             V("spelling_meaning", T, r.text, r.maps_to)>> >>
                   ELSE <<>>))
-  /\ UNCHANGED <<enumOf, seenAbbr, abbrOf, unitAff, consistent>>
+  /\ UNCHANGED <<enumOf, seenAbbr, abbrOf, unitAff, consistent, implAff>>
 
 TConsistent == LET r == Facts[l]  T == r.type IN
   /\ IsEvent("Consistent")
@@ -121,7 +123,7 @@ TConsistent == LET r == Facts[l]  T == r.type IN
                      <<r.system = StandardSystem => r.unit = enumOf[T].std,
                        V("std_system_not_standard_unit", T, r.system, r.unit)>> >> ELSE <<>>))
   /\ consistent' = consistent @@ (<<T, r.system>> :> r.unit)
-  /\ UNCHANGED <<enumOf, seenAbbr, abbrOf, unitAff>>
+  /\ UNCHANGED <<enumOf, seenAbbr, abbrOf, unitAff, implAff>>
 
 SystemsOf(t, u) == {s \in Systems : <<t, s>> \in DOMAIN consistent /\ consistent[<<t, s>>] = u}
 TRelated == LET r == Facts[l]  S == SystemsOf(r.type, r.unit) IN
@@ -130,7 +132,7 @@ TRelated == LET r == Facts[l]  S == SystemsOf(r.type, r.unit) IN
   /\ \A s \in Systems : <<r.type, s>> \in DOMAIN consistent     \* forward table was dumped completely
   /\ Judge(<< <<IF Cardinality(S) = 1 THEN r.system \in S ELSE r.system = "#none",
                 V("related_system", r.type, r.unit, r.system)>> >>)
-  /\ UNCHANGED <<enumOf, seenAbbr, abbrOf, unitAff, consistent>>
+  /\ UNCHANGED <<enumOf, seenAbbr, abbrOf, unitAff, consistent, implAff>>
 
 TQType == LET r == Facts[l] IN
   /\ IsEvent("QType")
@@ -138,7 +140,7 @@ TQType == LET r == Facts[l] IN
   /\ Judge(<< <<r.dims = r.dims_f /\ r.dims = r.dims_l, V("qtype_dims_numeric_types", r.name, r.name, "")>>,
               <<r.dims = (IF r.unit_type = "#none" THEN DZero ELSE enumOf[r.unit_type].dims),
                 V("qtype_dims", r.name, r.name, r.unit_type)>> >>)
-  /\ UNCHANGED <<enumOf, seenAbbr, abbrOf, unitAff, consistent>>
+  /\ UNCHANGED <<enumOf, seenAbbr, abbrOf, unitAff, consistent, implAff>>
 
 (* abstract events of the non-spelling fuzz: per enumeration type and mutation class, how many    *)
 (* mutated strings were tried, how many happened to be accepted spellings (linear scan over the  *)
@@ -147,7 +149,28 @@ TNonSpelling == LET r == Facts[l] IN
   /\ IsEvent("NonSpelling")
   /\ r.type \in DOMAIN enumOf /\ r.n >= 0 /\ r.accepted <= r.n
   /\ Judge(<< <<r.wrong = 0, V("nonspelling", r.type, ToString(r.cls), r.witness)>> >>)
-  /\ UNCHANGED <<enumOf, seenAbbr, abbrOf, unitAff, consistent>>
+  /\ UNCHANGED <<enumOf, seenAbbr, abbrOf, unitAff, consistent, implAff>>
+
+(* C07 on the IMPLEMENTED factors: the slope of the consistent unit's own conversion routine (parsed exactly from its body)   *)
+(* equals the product of the slopes of the system's base units - the consistent units of the six base unit types in the     *)
+(* library's own table - raised to the type's dimension exponents; both directions.  (TConsistent states the same for the   *)
+(* magnitudes the unit SYMBOLS denote; C01 ties the two together unit by unit.  Emitted after all tables are known.)        *)
+BaseTypes == <<"Time", "Length", "Mass", "ElectricCurrent", "Temperature", "SubstanceAmount">>
+RECURSIVE ImplCoh(_, _, _, _)
+ImplCoh(s, d, dir, i) == IF i = 0 THEN One ELSE
+  BagAdd(IF d[i] = 0 THEN One ELSE BagScale(d[i], implAff[<<BaseTypes[i], consistent[<<BaseTypes[i], s>>]>>][dir]), ImplCoh(s, d, dir, i - 1))
+TImplCoherent == LET r == Facts[l]  T == r.type IN
+  /\ IsEvent("ImplCoherent")
+  /\ <<T, r.system>> \in DOMAIN consistent /\ consistent[<<T, r.system>>] = r.unit
+  /\ LET d == enumOf[T].dims
+         decidable == /\ <<T, r.unit>> \in DOMAIN implAff /\ d[7] = 0
+                      /\ \A i \in 1..6 : d[i] # 0 => /\ <<BaseTypes[i], r.system>> \in DOMAIN consistent
+                                                      /\ <<BaseTypes[i], consistent[<<BaseTypes[i], r.system>>]>> \in DOMAIN implAff
+         dd == [i \in 1..6 |-> d[i]]
+     IN Judge(IF ~decidable THEN << <<FALSE, V("inconclusive_impl_coherence", T, r.system, r.unit)>> >>
+              ELSE << <<implAff[<<T, r.unit>>].to = ImplCoh(r.system, dd, "to", 6), V("incoherent_implemented", T, r.system, r.unit \o " (to standard)")>>,
+                      <<implAff[<<T, r.unit>>].from = ImplCoh(r.system, dd, "from", 6), V("incoherent_implemented", T, r.system, r.unit \o " (from standard)")>> >>)
+  /\ UNCHANGED <<enumOf, seenAbbr, abbrOf, unitAff, consistent, implAff>>
 
 TFinish == /\ l = Len(Facts) + 1 /\ l' = l + 1
            /\ LET keys == SetToSeq(DOMAIN unitAff) IN
@@ -164,9 +187,9 @@ TFinish == /\ l = Len(Facts) + 1 /\ l' = l + 1
                                              off |-> IF unitAff[keys[i]].to.has_off
                                                      THEN BagSub(unitAff[keys[i]].to.off_bag, unitAff[keys[i]].mag)
                                                      ELSE One]]])
-           /\ UNCHANGED <<enumOf, seenAbbr, abbrOf, unitAff, consistent, bad>>
+           /\ UNCHANGED <<enumOf, seenAbbr, abbrOf, unitAff, consistent, bad, implAff>>
 
-Next == TEnum \/ TEnumerator \/ TExtraKey \/ TSpelling \/ TConsistent \/ TRelated \/ TQType \/ TNonSpelling \/ TFinish
+Next == TEnum \/ TEnumerator \/ TExtraKey \/ TSpelling \/ TConsistent \/ TRelated \/ TQType \/ TNonSpelling \/ TImplCoherent \/ TFinish
 Spec == Init /\ [][Next]_vars
 (* one state per consumed event, the initial state, and the finishing step *)
 Accepted == TLCGet("stats").diameter - 2 = Len(Facts)
